@@ -1312,3 +1312,14 @@ pub fn level_iter_cursor(
     }
     Some(out)
 }
+
+/// Serialise a log fragment of the given type (0 Full, 1 First, 2 Middle, 3 Last) and payload and parse it back.
+/// Returns (type, payload) of the parsed fragment (None: the bytes did not parse).
+pub fn block_record_roundtrip(block_type: u8, data: &[u8]) -> Option<(u8, Vec<u8>)> {
+    use crate::logs::{BlockRecord, BlockType};
+    let ty = BlockType::try_from(block_type).ok()?;
+    let record = BlockRecord::new(data.len() as u16, ty, data.to_vec());
+    let bytes: Vec<u8> = Vec::from(&record);
+    let parsed = BlockRecord::try_from(&bytes).ok()?;
+    Some(parsed.parts_for_verif())
+}
